@@ -164,7 +164,12 @@ def modelledCodes : List String :=
 def modelledCodesB' : List String :=
   ["0002", "0005", "0006", "000C", "0016", "0100", "1030", "1081", "1090", "1100", "12F0", "1300", "1F41", "1FC9", "2E04", "313F", "3B00", "0418", "0404"]
 
-def isModelled (code : List Char) : Bool := inS (modelledCodes ++ modelledCodesB') code
+def modelledCodesC : List String :=
+  ["0001", "000E", "0150", "01D0", "01E9", "042F", "0B04", "1098", "10B0", "10D0", "10E1", "10E2", "11F0", "1280", "1290", "1298",
+   "12A0", "12C0", "12C8", "1470", "1F70", "1FCA", "1FD0", "1FD4", "22D0", "22D9", "2389", "2400", "2401", "2420", "2D49", "2E10",
+   "3110", "3120", "3200", "3210", "3EF0", "3EF1"]
+
+def isModelled (code : List Char) : Bool := inS (modelledCodes ++ modelledCodesB' ++ modelledCodesC) code
 
 def zonMode (k : List Char) : Option (List Char) := (lookupS Gen.zonModeMap k).map (·.toList)
 
@@ -510,6 +515,312 @@ def parserB (f : Frame) (arr : Bool) : Option (Py Parsed) :=
   else if code = s "0404" then some (p0404 f)
   else none
 
+/-! ### a third batch: HVAC sensor values (1280 1290 1298 12A0 12C0 12C8), boiler / relay state (3EF0 3EF1 3110
+3200 3210 22D9 2401 10D0 2D49), device ids (10E1 1FCA), HVAC schedules (1470 1F70 22D0) and the fixed-payload
+codes whose parser is an assertion on the whole payload -/
+
+def jInt (n : Int) : Json := .int n
+
+/-- `f"{n:02d}"` -/
+def dec02 (n : Nat) : List Char := if n < 100 then toDecW 2 n else (toString n).toList
+
+def bitOf (n k : Nat) : Bool := n / 2 ^ k % 2 = 1
+
+/-- `_faulted_sensor(param_name, value)` -/
+def faultedSensor (name : String) (value : List Char) : Py Dict := do
+  let n ← pyInt16 (value.take 2)
+  let fault := match Gen.sensorFaultCodes.find? (·.1 = n % 16) with
+    | some (_, nm) => nm.toList
+    | none => s "invalid_" ++ value
+  pure [(name ++ "_fault", .str fault)]
+
+/-- `_parse_hvac_temp(param_name, value)` -/
+def hvacTemp (name : String) (v : List Char) : Py Dict :=
+  if v.length ≠ 4 then .error .valueError else
+  if v = s "7FFF" || v = s "31FF" then .ok [(name, .null)] else do
+    let hi ← pyInt16 (v.take 2)
+    if hi / 16 = 8 then faultedSensor name v else do
+      let n ← pyInt16 v
+      let k : Int := if n < 2 ^ 15 then n else (n : Int) - 2 ^ 16
+      -- `temp <= -273` on the floats is `k <= -27300` on the integers
+      if k ≤ -27300 then faultedSensor name v else pure [(name, jsonOfTemp (tempOfCenti k))]
+
+/-- `_parse_hvac_humidity(param_name, value, temp, dewpoint)` -/
+def hvacHumidity (name : String) (value temp dew : List Char) : Py Dict :=
+  if value.length ≠ 2 then .error .valueError else
+  if temp.length ≠ 0 && temp.length ≠ 4 then .error .valueError else
+  if dew.length ≠ 0 && dew.length ≠ 4 then .error .valueError else
+  if value = s "EF" then .ok [(name, .null)] else do
+    let n ← pyInt16 value
+    if n / 16 = 15 then faultedSensor name value else do
+      pyAssert (n ≤ 100)
+      let r0 : Dict := [(name, .num false (divInt n 100))]
+      let r1 ← if temp ≠ [] then do
+          let t ← jTemp temp
+          pure (dictSet r0 "temperature" t)
+        else pure r0
+      if dew ≠ [] then do
+        let t ← jTemp dew
+        pure (dictSet r1 "dewpoint_temp" t)
+      else pure r1
+
+/-- `parse_co2_level(value)` -/
+def co2Level (v : List Char) : Py Dict :=
+  if v.length ≠ 4 then .error .valueError else
+  if v = s "7FFF" then .ok [("co2_level", .null)] else do
+    let n ← pyInt16 v
+    let hi ← pyInt16 (v.take 2)
+    if hi / 128 % 2 = 1 || n ≥ 0x8000 then faultedSensor "co2_level" v else pure [("co2_level", jNat n)]
+
+/-- `parse_air_quality(value)` -/
+def airQuality (v : List Char) : Py Dict :=
+  if v.length ≠ 4 then .error .valueError else do
+    pyAssert (v.take 2 ≠ s "EF" || v.drop 2 = s "00")
+    if v = s "EF00" then pure [("air_quality", .null)] else do
+      let n ← pyInt16 (v.take 2)
+      if n / 16 = 15 then faultedSensor "air_quality" v else do
+        pyAssert (n ≤ 200)
+        let b := v.drop 2
+        pyAssert (b = s "10" || b = s "20" || b = s "40")
+        let basis := if b = s "10" then "voc" else if b = s "20" then "co2" else "rel_humidity"
+        pure [("air_quality", .num false (divInt n 200)), ("air_quality_basis", .str basis.toList)]
+
+def jBoolOpt : Option Bool → Json
+  | none => .null
+  | some b => .bool b
+
+def wholePayload (f : Frame) (want : List String) : Py Parsed := do
+  pyAssert (inS want f.payload)
+  pure (.dict [("payload", .str f.payload)])
+
+def p0001 (f : Frame) : Py Parsed := do
+  let p := f.payload
+  let w := slice p 2 6
+  if w = s "2000" || w = s "8000" || w = s "A000" then do
+    pyAssert (p.take 2 = s "00")
+    pyAssert (inS ["00", "04", "10", "20", "FF"] (slice p 8 10))
+    let r0 : Dict := [("payload", .str p), ("slot_num", .str (slice p 6 8))]
+    let r1 : Dict := if f.blen ≥ 6 then r0 ++ [("param_num", .str (slice p 10 12))] else r0
+    let r2 : Dict := if f.blen ≥ 7 then r1 ++ [("next_slot_num", .str (slice p 12 14))] else r1
+    if f.blen ≥ 8 then
+      if slice p 14 16 = s "FF" then pure (.dict (r2 ++ [("boolean_14", .null)]))
+      else match ofDec (slice p 14 16) with        -- `bool(int(payload[14:16]))`: a *decimal* int
+        | some n => pure (.dict (r2 ++ [("boolean_14", .bool (n ≠ 0))]))
+        | none => throw .valueError
+    else pure (.dict r2)
+  else do
+    pyAssert (w = s "0000" || w = s "FFFF")
+    pyAssert (inS ["00", "02", "05"] (slice p 8 10))
+    pure (.dict [("payload", .str (p.take 2 ++ '-' :: slice p 2 6 ++ '-' :: slice p 6 8 ++ '-' :: p.drop 8))])
+
+def p10D0 (f : Frame) : Py Parsed := do
+  let p := f.payload
+  let r0 : Dict ← if f.verb = vW then pure [("reset_counter", Json.bool (slice p 2 4 = s "FF"))]
+    else do
+      let n ← pyInt16 (slice p 2 4)
+      pure [("days_remaining", jNat n)]
+  let r1 : Dict ← if f.blen ≥ 3 then do
+      let n ← pyInt16 (slice p 4 6)
+      pure (r0 ++ [("days_lifetime", jNat n)])
+    else pure r0
+  if f.blen ≥ 4 then do
+    let v ← jPercent (slice p 6 8)
+    pure (.dict (r1 ++ [("percent_remaining", v)]))
+  else pure (.dict r1)
+
+def p12C0 (f : Frame) : Py Parsed := do
+  let p := f.payload
+  let temp : Json ←
+    if slice p 2 4 = s "80" then pure Json.null
+    else do
+      let n ← pyInt16 (slice p 2 4)
+      if slice p 4 6 = s "00" then pure (jNat n) else pure (Json.num false (divInt n 2))
+  let units ← if slice p 4 6 = s "00" then pure "Fahrenheit" else if slice p 4 6 = s "01" then pure "Celsius" else throw .keyError
+  let r : Dict := [("temperature", temp), ("units", .str units.toList)]
+  pure (.dict (if p.length > 6 then r ++ [("_unknown_6", .str (p.drop 6))] else r))
+
+def p1470 (f : Frame) : Py Parsed := do
+  let p := f.payload
+  pyAssert (slice p 8 10 = s "80")
+  pyAssert (f.verb = vW || slice p 4 8 = s "0E60")
+  pyAssert (f.verb = vW || p.drop 10 = s "2A0108")
+  pyAssert (f.verb ≠ vW || p.drop 4 = s "000080000000")
+  let sc := slice p 2 3
+  pyAssert ((sc = s "9" || sc = s "A" || sc = s "B") && inS ["2", "3", "4", "5", "6"] (slice p 3 4))
+  let scheme := if sc = s "9" then "one_per_week" else if sc = s "A" then "two_per_week" else "one_each_day"
+  pure (.dict [("scheme", .str scheme.toList), ("daily_setpoints", .str (slice p 3 4)), ("_value_4", .str (slice p 4 8)),
+    ("_value_8", .str (slice p 8 10)), ("_value_10", .str (p.drop 10))])
+
+def p1F70 (f : Frame) : Py Parsed := do
+  let p := f.payload
+  let hh ← pyInt16 (slice p 18 20)
+  let mm ← pyInt16 (slice p 20 22)
+  pure (.dict [("day_idx", .str (slice p 16 18)), ("setpoint_idx", .str (slice p 8 10)),
+    ("start_time", .str (dec02 hh ++ ':' :: dec02 mm)), ("fan_speed_wip", .str (slice p 24 26)),
+    ("_value_02", .str (slice p 2 4)), ("_value_04", .str (slice p 4 8)), ("_value_10", .str (slice p 10 14)),
+    ("_value_14", .str (slice p 14 16)), ("_value_22", .str (slice p 22 24)), ("_value_26", .str (p.drop 26))])
+
+def p22D0 (f : Frame) : Py Parsed := do
+  let p := f.payload
+  if p.length = 8 then pyAssert (inS ["00", "02", "0A"] (p.drop 6)) else pyAssert (p.drop 4 = s "001E14030020")
+  pyAssert (slice p 4 6 = s "00")
+  let fl ← hexToFlag8 (slice p 2 4) false
+  let n ← pyInt16 (slice p 2 4)
+  pure (.dict [("idx", .str (p.take 2)), ("_flags", .arr (fl.map jNat)), ("cool_mode", .bool (bitOf n 1)),
+    ("heat_mode", .bool (bitOf n 2)), ("is_active", .bool (bitOf n 4)), ("_unknown", .str (p.drop 4))])
+
+def p2401 (f : Frame) : Py Parsed := do
+  let p := f.payload
+  -- (the try-block only warns; its `int()` calls are on the same hex fields as below)
+  let n2 ← pyInt16 (slice p 4 6)
+  let _ ← pyInt16 (p.drop 6)
+  let fl ← hexToFlag8 (slice p 4 6) false
+  let vd ← parseValveDemand (slice p 6 8)
+  pure (.dict (dictSet (dictMerge [("_flags_2", .arr (fl.map jNat))] vd) "_value_2" (jNat n2)))
+
+def p3110 (f : Frame) : Py Parsed := do
+  let p := f.payload
+  let _ ← pyInt16 (slice p 4 6)
+  let n ← pyInt16 (slice p 6 8)
+  let m := n / 16 % 4
+  let mode := if m = 0 then "disabled" else if m = 1 then "heating" else if m = 2 then "cooling" else "unknown"
+  if m = 1 || m = 2 then do
+    let d ← jPercent (slice p 4 6)
+    pure (.dict [("mode", .str mode.toList), ("demand", d)])
+  else pure (.dict [("mode", .str mode.toList)])
+
+def jPercentLo (v : List Char) : Py Json :=
+  (hexToPercent v false).map fun | none => .null | some x => .num false x
+
+def p3EF0 (f : Frame) : Py Parsed := do
+  let p := f.payload
+  if f.srcType = Gen.devTypeJIM.toList then do
+    pyAssert (f.blen = 20)
+    pure (.dict [("ordinal", .str (s "0x" ++ slice p 2 8)), ("blob", .str (p.drop 8))])
+  else do
+    pyAssert (f.blen = 3 || f.blen = 6 || f.blen = 9)
+    let lvl ← if f.blen = 3 then do
+        pyAssert (slice p 2 4 = s "00" || slice p 2 4 = s "C8")
+        pyAssert (slice p 4 6 = s "FF")
+        jPercent (slice p 2 4)
+      else do
+        pyAssert (inS ["00", "10", "11"] (slice p 4 6))
+        jPercentLo (slice p 2 4)
+    let r0 : Dict := [("modulation_level", lvl), ("_flags_2", .str (slice p 4 6))]
+    let r1 : Dict ← if f.blen ≥ 6 then do
+        let fl ← hexToFlag8 (slice p 6 8) false
+        let n ← pyInt16 (slice p 6 8)
+        pure (r0 ++ [("_flags_3", .arr (fl.map jNat)), ("ch_active", .bool (bitOf n 1)), ("dhw_active", .bool (bitOf n 2)),
+          ("cool_active", .bool (bitOf n 4)), ("flame_on", .bool (bitOf n 3)), ("_unknown_4", .str (slice p 8 10)),
+          ("_unknown_5", .str (slice p 10 12))])
+      else pure r0
+    if f.blen ≥ 9 then do
+      let b6 ← pyInt16 (slice p 12 14)
+      pyAssert (b6 / 4 = 0)
+      pyAssert (b6 / 2 % 2 = 1)
+      let b7 ← pyInt16 (slice p 14 16)
+      pyAssert (10 ≤ b7 && b7 ≤ 90)
+      let b8 ← pyInt16 (slice p 16 18)
+      pyAssert (b8 = 0 || b8 = 100)
+      let fl ← hexToFlag8 (slice p 12 14) false
+      let mx ← jPercentLo (slice p 16 18)
+      pure (.dict (r1 ++ [("_flags_6", .arr (fl.map jNat)), ("ch_enabled", .bool (bitOf b6 0)), ("ch_setpoint", jNat b7),
+        ("max_rel_modulation", mx)]))
+    else pure (.dict r1)
+
+def p3EF1 (f : Frame) : Py Parsed := do
+  let p := f.payload
+  if f.srcType = Gen.devTypeJIM.toList then do
+    pyAssert (f.blen = 18)
+    pure (.dict [("ordinal", .str (s "0x" ++ slice p 2 8)), ("blob", .str (p.drop 8))])
+  else if f.srcType = Gen.devTypeJST.toList then do
+    pyAssert (f.blen = 12)
+    pure (.dict [("ordinal", .str (s "0x" ++ slice p 2 8)), ("blob", .str (p.drop 8))])
+  else do
+    let pc ← hexToPercent (slice p 10 12) true
+    let isZeroOrOne := match pc with | none => true | some v => v.eqv ⟨0, 0⟩ || v.eqv ⟨1, 0⟩
+    if p.drop 12 = s "FF" then pyAssert isZeroOrOne
+    else do
+      pyAssert (slice p 2 6 = s "7FFF")
+      pyAssert (slice p 6 10 = s "003C")
+      -- `percent <= 1` always holds for what hex_to_percent returns
+    let cyc : Option Int ← if slice p 2 6 = s "7FFF" then pure none else do
+        let n ← pyInt16 (slice p 2 6)
+        let k : Int := if n > 0x7FFF then (n : Int) - 0x10000 else n
+        pyAssert (k < 7200)
+        pure (some k)
+    let act : Option Int ← if slice p 6 10 = s "7FFF" then pure none else do
+        let n ← pyInt16 (slice p 6 10)
+        pure (if n > 0x7FFF then cyc else some (n : Int))
+    let jo : Option Int → Json := fun | none => .null | some k => .int k
+    pure (.dict [("modulation_level", match pc with | none => .null | some v => .num false v), ("actuator_countdown", jo act),
+      ("cycle_countdown", jo cyc), ("_unknown_0", .str (p.drop 12))])
+
+def parserC (f : Frame) : Option (Py Parsed) :=
+  let p := f.payload
+  let code := f.code
+  if code = s "0001" then some (p0001 f)
+  else if code = s "000E" then some (wholePayload f ["000014", "000028"])
+  else if code = s "0150" then some (wholePayload f ["000000"])
+  else if code = s "01D0" || code = s "01E9" then some (do
+    pyAssert (p.drop 2 = s "00" || p.drop 2 = s "03")
+    pure (.dict [("unknown_0", .str (p.drop 2))]))
+  else if code = s "042F" then some (.ok (.dict [("counter_1", .str (s "0x" ++ slice p 2 6)), ("counter_3", .str (s "0x" ++ slice p 6 10)),
+    ("counter_5", .str (s "0x" ++ slice p 10 14)), ("unknown_7", .str (s "0x" ++ p.drop 14))]))
+  else if code = s "0B04" then some (.ok (.dict [("unknown_1", .str (p.drop 2))]))
+  else if code = s "1098" then some (do
+    pyAssert (p = s "00C8")
+    pure (.dict [("_payload", .str p), ("_value", .bool true)]))
+  else if code = s "10B0" then some (do
+    pyAssert (p = s "0000")
+    pure (.dict [("_payload", .str p), ("_value", .bool false)]))
+  else if code = s "10D0" then some (p10D0 f)
+  else if code = s "10E1" then some (do
+    let d ← hexIdToDevId (p.drop 2)
+    pure (.dict [("device_id", .str (showDevId d))]))
+  else if code = s "10E2" then some (do
+    pyAssert (p.take 2 = s "00")
+    pyAssert (p.length = 6)
+    let n ← pyInt16 (p.drop 2)
+    pure (.dict [("counter", jNat n)]))
+  else if code = s "11F0" then some (wholePayload f ["000009000000000000"])
+  else if code = s "1280" then some ((hvacHumidity "outdoor_humidity" (slice p 2 4) (slice p 4 8) (slice p 8 12)).map .dict)
+  else if code = s "1290" then some ((hvacTemp "outdoor_temp" (p.drop 2)).map .dict)
+  else if code = s "1298" then some ((co2Level (slice p 2 6)).map .dict)
+  else if code = s "12A0" then some ((hvacHumidity "indoor_humidity" (slice p 2 4) (slice p 4 8) (slice p 8 12)).map .dict)
+  else if code = s "12C0" then some (p12C0 f)
+  else if code = s "12C8" then some ((airQuality (slice p 2 6)).map .dict)
+  else if code = s "1470" then some (p1470 f)
+  else if code = s "1F70" then some (p1F70 f)
+  else if code = s "1FCA" then some (do
+    let a ← hexIdToDevId (slice p 6 12)
+    let b ← hexIdToDevId (p.drop 12)
+    pure (.dict [("_unknown_0", .str (p.take 2)), ("_unknown_1", .str (slice p 2 6)), ("device_id_0", .str (showDevId a)),
+      ("device_id_1", .str (showDevId b))]))
+  else if code = s "1FD0" then some (wholePayload f ["0000000000000000"])
+  else if code = s "1FD4" then some (do
+    let n ← pyInt16 (p.drop 2)
+    pure (.dict [("ticker", jNat n)]))
+  else if code = s "22D0" then some (p22D0 f)
+  else if code = s "22D9" then some ((optTemp "setpoint" (slice p 2 6)).map .dict)
+  else if code = s "2389" then some ((optTemp "_unknown" (slice p 2 6)).map .dict)
+  else if code = s "2400" then some (.ok (.dict [("payload", .str p)]))
+  else if code = s "2401" then some (p2401 f)
+  else if code = s "2420" then some (wholePayload f ["00000010" ++ String.join (List.replicate 34 "00")])
+  else if code = s "2D49" then some (do
+    pyAssert (inS ["0000", "00FF", "C800", "C8FF"] (p.drop 2))
+    let b ← hexToBool (slice p 2 4)
+    pure (.dict [("state", jBoolOpt b)]))
+  else if code = s "2E10" then some (do
+    pyAssert (p = s "0001" || p = s "000100")
+    pure (.dict [("presence_detected", .bool true), ("_unknown_4", .str (p.drop 4))]))
+  else if code = s "3110" then some (p3110 f)
+  else if code = s "3120" then some (.ok (.dict [("unknown_0", .str (slice p 2 10)), ("unknown_5", .str (slice p 10 12)), ("unknown_2", .str (p.drop 12))]))
+  else if code = s "3200" || code = s "3210" then some ((optTemp "temperature" (p.drop 2)).map .dict)
+  else if code = s "3EF0" then some (p3EF0 f)
+  else if code = s "3EF1" then some (p3EF1 f)
+  else none
+
 def modelledCodesB : List String :=
   ["0002", "0005", "0006", "000C", "0016", "0100", "1030", "1081", "1090", "1100", "12F0", "1300", "1F41", "1FC9", "2E04", "313F", "3B00"]
 
@@ -614,7 +925,9 @@ def parser (f : Frame) (arr : Bool) : Py Parsed :=
       pure (.dict r2)
   else match parserB f arr with
     | some r => r
-    | none => .error .notImplemented
+    | none => match parserC f with
+      | some r => r
+      | none => .error .notImplemented
 
 /-- `str.isnumeric()` on the 3-char seqn -/
 def seqnNumeric (q : List Char) : Bool := q ≠ [] && allB uniDigit q
